@@ -102,16 +102,22 @@ def protocol(ctx, R):
         okd = bool(waits) and bool(ne) and bool(ftd) and bool(jobs)
         if okd:
             w = waits[0]
+            wbb = w.bb
+            if not ww:
+                # re-checking loop form: the loop header (where the predicate is evaluated) is the mandatory point
+                hs = [h for h, blks in pb.loops().items() if w.bb in blks]
+                if hs:
+                    wbb = min(hs, key=lambda h: len(pb.loops()[h]))
             for c in ne + ftd + jobs:
                 # every path to c either passes the wait or goes through the `monitor is None` edge
                 conds_none = False
                 from lib import every_path_passes
-                if not every_path_passes(pb, 0, c.bb, [w.bb]):
+                if not every_path_passes(pb, 0, c.bb, [wbb]):
                     # allowed only if the bypass is exactly the `self.monitor is None` branch
-                    byp = [k for k in path_conditions(pb, w.bb) if k.kind == 'discr' and k.variants == {'Some'} and
+                    byp = [k for k in path_conditions(pb, wbb) if k.kind == 'discr' and k.variants == {'Some'} and
                            k.expr.has_field('monitor')]
-                    others = [k for k in path_conditions(pb, w.bb) if not (k.kind == 'discr' and k.variants == {'Some'}
-                                                                           and k.expr.has_field('monitor'))]
+                    others = [k for k in path_conditions(pb, wbb) if not (k.kind == 'discr' and k.variants == {'Some'}
+                                                                          and k.expr.has_field('monitor'))]
                     okd = okd and bool(byp) and not others
         ctx.check(okd, R, pb, tname + ':wait-precedes-epoch/distances/jobs', '',
                   'epoch advance, distance queries or job submission can happen before the previous batch was waited '
